@@ -31,8 +31,25 @@ def run(rate, n, seed):
     finally:
         sys.setprofile(None)
     return l.n, len(tr.traces)
+# a WIDE program: many functions, each called only a few times (the rate must not depend on how often a function was seen)
+ns = {}
+exec("\n".join(f"def w{i}(a): return a" for i in range(300)), ns)
+wide = [ns[f"w{i}"] for i in range(300)]
+codes = {f.__code__ for f in wide}
+def run_wide(rate, reps, seed):
+    random.seed(seed)
+    l = L(); tr = CallTracer(l, 0, lambda c: c in codes, rate)
+    sys.setprofile(tr)
+    try:
+        for _ in range(reps):
+            for f in wide: f(1)
+    finally:
+        sys.setprofile(None)
+    return l.n, len(tr.traces)
 import json
-print(json.dumps({str(r): run(r, 20000, 7 + (r or 0)) for r in (None, 1, 2, 3, 10, 100)}))
+out = {str(r): run(r, 20000, 7 + (r or 0)) for r in (None, 1, 2, 3, 10, 100)}
+out.update({"wide:" + str(r): run_wide(r, 4, 3 + (r or 0)) for r in (None, 2, 4, 10)})
+print(json.dumps(out))
 '''
 
 
@@ -144,15 +161,17 @@ def fraction_test(ctx):
     import json
     out = json.loads(p.stdout[p.stdout.index("{"):])
     res, bad = {}, []
-    n = 20000
     for rate, (logged, residue) in out.items():
-        r = None if rate == "None" else int(rate)
+        n = 20000
+        if rate.startswith("wide:"):
+            n = 1200            # 300 functions x 4 calls
+        r = None if rate.split(":")[-1] == "None" else int(rate.split(":")[-1])
         pexp = 1.0 if r in (None, 1) else 1.0 / r
         sd = math.sqrt(n * pexp * (1 - pexp))
         lo, hi = n * pexp - 6 * sd - 1e-9, n * pexp + 6 * sd + 1e-9
         res[rate] = {"calls": n, "logged": logged, "expected": n * pexp, "six_sigma": [round(lo, 1), round(hi, 1)], "residue": residue}
         if not (lo <= logged <= hi) or residue != 0:
-            bad.append({"what": f"sample_rate={rate}: {logged} of {n} plain calls traced (expected {n * pexp:.0f} +- 6 sigma = "
+            bad.append({"what": f"sample_rate={rate}: {logged} of {n} plain calls ({'300 functions called 4 times each' if rate.startswith('wide:') else 'one function'}) traced (expected {n * pexp:.0f} +- 6 sigma = "
                                 f"[{lo:.0f}, {hi:.0f}]), residue {residue}", "rate": rate, "logged": logged})
     return res, bad
 
